@@ -6,6 +6,7 @@ mod equiv;
 mod gen;
 mod meta;
 mod readers;
+mod satobj;
 mod statics;
 mod store;
 
@@ -68,6 +69,10 @@ fn main() {
         "encoders" => encoders::run(&mut rng, count, thorough, &extra, &mut out),
         "readers" => readers::run_readers(&mut rng, count, thorough, &shard, &mut out),
         "writers" => readers::run_writers(&mut rng, count, thorough, &mut out),
+        "satobj" => satobj::run_satobj(&mut rng, count, thorough, &extra, &mut out),
+        "dimacs" => satobj::run_dimacs(&mut rng, count, thorough, &extra, &mut out),
+        "reply" => satobj::run_reply(&mut rng, count, thorough, &extra, &mut out),
+        "pipe" => satobj::run_pipe(&mut rng, count, thorough, &extra, &mut out),
         "static-multi" => statics::run(&mut rng, count, thorough, &statics::Cfg::from_extra(&extra, 3), &mut out),
         _ => {
             eprintln!("unknown mode {}", mode);
